@@ -267,6 +267,48 @@ def explore_words(case):
     return res
 
 
+def explore_longrun(case):
+    """one long deterministic history per (configuration, initial state, menu phase): N consecutive steps fed back into each other, menu items
+    cycling.  Every step is judged locally (reference flow applied to the implementation's own previous state) and for unit norm, so a
+    defect that is below round-off in one step but compounds (normalisation, drift) is seen when it has grown."""
+    config, tier, seed, i0, phase = case["config"], case["tier"], case["seed"], case["init"], case["phase"]
+    n = 600 if tier == "thorough" else 150
+    res = core.Result()
+    items = [it for it in menu(tier, True) if DT_MENU[it[3]] in (1e-3, 0.01)]
+    x = initial_states(config, seed)[i0]
+    T = 0.0
+    for k in range(n):
+        it = items[(k * 5 + phase * 7) % len(items)]
+        a, w, g, dt = A_MENU[it[0]], W_MENU[it[1]], G_MENU[it[2]], DT_MENU[it[3]]
+        res.count("evaluations")
+        res.count("transitions")
+        res.count("traces_validated_against_impl")
+        res.nontrivial.add(hash((config, i0, phase, k)))
+        x1 = step(config, x, a, w, g, dt)
+        pl, vl, Rl = split(config, x)
+        plr, vlr, Rlr = ref_step(pl, vl, Rl, a, w, g, dt)
+        T += dt
+        ok = judge(res, config, x1, plr, vlr, Rlr, 1.0 + T, "local_step_exact_flow", dict(x=x, item=list(it), step=k + 1, cls="long_run"), case, steps=k + 1)
+        if not ok:
+            break
+        x = x1
+    res.counters["max_depth"] = k + 1
+    res.count("states", k + 1)
+    res.outcomes.add(hash(np.round(x, 6).tobytes()))
+    res.samples.append(dict(config=config, init=i0, phase=phase, steps=k + 1))
+    return res
+
+
+class _SubLong:
+    chunks = 1
+
+    def cases(self, tier, seed):
+        return [dict(sub="longrun", config=c, tier=tier, seed=seed, init=i0, phase=ph) for c in ("strapdown_quat", "exp_mixed_mrp") for i0 in range(3) for ph in range(2)]
+
+    def run(self, case):
+        return explore_longrun(case)
+
+
 def explore_pyapi(case):
     """the group method used directly from Python with numeric elements that are built once and reused over several steps
     (l, r, B constructed once; X fed back): the way a Python user integrates an IMU stream without code generation"""
@@ -346,9 +388,10 @@ class _SubWords:
         return explore_words(case)
 
 
-SUBCHECKS = {"onestep": _SubOne(), "pyapi": _SubPy(), "words": _SubWords()}
+SUBCHECKS = {"onestep": _SubOne(), "pyapi": _SubPy(), "words": _SubWords(), "longrun": _SubLong()}
 SUBCHECKS["words"].chunks = 4
-REPLAY = {"onestep": lambda c: explore_onestep(c).fails, "words": lambda c: explore_words(c).fails, "pyapi": lambda c: explore_pyapi(c).fails}
+REPLAY = {"onestep": lambda c: explore_onestep(c).fails, "words": lambda c: explore_words(c).fails, "pyapi": lambda c: explore_pyapi(c).fails,
+          "longrun": lambda c: explore_longrun(c).fails}
 
 
 def bounds(tier):
